@@ -221,9 +221,15 @@ class Run:
         self.shape.append(['repeat3', op['cfg'], None, classes[-1]])
         if 'C08' in self.props and len(cens) == 2 and classes == ['ok', 'ok', 'ok']:
             self.count('census:measured')
-            (inst2, cont2), (inst3, cont3) = cens
+            ((inst2, pay2), cont2), ((inst3, pay3), cont3) = cens
             g_inst = census.growth(inst2, inst3)
             g_cont = census.growth(cont2, cont3)
+            g_pay = census.growth(pay2, pay3)
+            if g_pay and not g_inst:
+                self.census_dirty = True
+                self.violate('C08', 'leak', 'payload:%s' % g_pay[0][0], i, {
+                    'abbr': op['abbr'], 'cfg': op['cfg'],
+                    'containers held by long-lived library objects grew between 2nd and 3rd identical call': g_pay[:8]})
             self.extra['containers_tracked'] = len(cont3)
             if g_cont:
                 self.census_dirty = True
